@@ -100,3 +100,29 @@ func (a *Arena) CanaryIntact(s []byte, pattern byte) bool {
 	}
 	return true
 }
+
+// TailGap returns n bytes ending gap bytes before the trailing guard page (cap == n), filled from src: an over-read of
+// more than gap bytes faults, a shorter one does not - the placement that tells "never reads past the end" from "reads
+// past the end only when that cannot fault".
+func (a *Arena) TailGap(src []byte, gap int) []byte {
+	n := len(src)
+	if n+gap > len(a.body) {
+		panic("guard: too large")
+	}
+	end := len(a.body) - gap
+	s := a.body[end-n : end : end]
+	copy(s, src)
+	return s
+}
+
+// At returns n bytes starting at offset off of the accessible body (cap == n), filled from src; with an arena of two or
+// more pages, off near Page puts an internal page boundary anywhere inside or next to the buffer.
+func (a *Arena) At(src []byte, off int) []byte {
+	n := len(src)
+	if off < 0 || off+n > len(a.body) {
+		panic("guard: out of range")
+	}
+	s := a.body[off : off+n : off+n]
+	copy(s, src)
+	return s
+}
